@@ -216,8 +216,8 @@ impl Literal {
                                     return fields1.len() == fields2.len()
                                         && fields1
                                             .iter()
-                                        .zip(fields2.iter())
-                                        .all(|(f, ty)| f.is_of_type(checked, ty));
+                                            .zip(fields2.iter())
+                                            .all(|(f, ty)| f.is_of_type(checked, ty));
                                 }
                                 _ => return false,
                             }
